@@ -30,7 +30,7 @@ def _build_group(sizes, version=None, with_values=True):
             depth_d.append(None)
             val_d.append(None)
             continue
-        d = h.add_data({"lbl": {"depth": real_np.arange(sz) + 1.0, "values": real_np.arange(sz) + 5.0}})
+        d = h.add_data({"lbl": {"depth": real_np.arange(sz) + 1.0 + 0.25 * k, "values": real_np.arange(sz) + 5.0 + 10.0 * k}})
         val_d.append(d)
         depth_d.append(h.get_data("DEPTH")[0])
     return ws, g, holes, depth_d, val_d
